@@ -103,6 +103,15 @@ fn check(x: &[u8], y: &[u8], ms: i32, mm: i32, go: i32, ge: i32, warm: &[u8]) ->
             if f.score != u.score || f.operations != u.operations { return Err(format!("custom() after mode calls gives score {} / {:?}, a fresh aligner {} / {:?}", u.score, u.operations, f.score, f.operations)); }
             let got = rescore(&f, &x, &y, msl, mml, gol, gel, [-1, -2, -3, -4]).map_err(|e| format!("custom (4 clips): {}", e))?;
             if got != f.score as i64 { return Err(format!("custom (4 clips): path {:?} re-scores to {} but the reported score is {}", f.operations, got, f.score)); }
+            // the mode wrappers override whatever clip penalties the aligner carries: same result as on a default-scoring aligner
+            for mode in 0..3u8 {
+                let mut carried = Aligner::with_scoring(sc());
+                let mut plain = Aligner::with_scoring(Scoring::from_scores(go, ge, ms, mm));
+                let (a, b) = match mode { 0 => (carried.global(&x, &y), plain.global(&x, &y)), 1 => (carried.semiglobal(&x, &y), plain.semiglobal(&x, &y)), _ => (carried.local(&x, &y), plain.local(&x, &y)) };
+                if a.score != b.score || a.operations != b.operations || (a.xstart, a.xend, a.ystart, a.yend) != (b.xstart, b.xend, b.ystart, b.yend) {
+                    return Err(format!("mode {} on an aligner carrying clip penalties (-1,-2,-3,-4) gives score {} / {:?}, on a default aligner {} / {:?}", mode, a.score, a.operations, b.score, b.operations));
+                }
+            }
         }
         // asymmetric substitution function: global score against a reference DP with the same function
         {
